@@ -174,6 +174,11 @@ class _InlineMixin:
             return NotImplemented
         if len(segs) >= 2 and segs[-1] == "from" and len(args) == 1 and segs[-2] in ("Word", "u8", "u16", "u32", "u64", "usize", "i32", "i64", "u128"):
             return args[0]          # a lossless integer widening of a symbolic value
+        if len(segs) >= 2 and (segs[-2], segs[-1]) not in meth:
+            from ..symeval import _type_alias as _ta
+            al2_ = _ta(segs[-2])            # `type ExtSets = tracker::ExtInstSetTracker;` - the alias names the type's functions too
+            if al2_ and (lastseg(strip_generics(al2_)), segs[-1]) in meth:
+                segs = segs[:-2] + [lastseg(strip_generics(al2_)), segs[-1]]
         if len(segs) >= 2 and segs[-1] in ("new", "default", "with_capacity") and segs[-2] not in ("HashMap", "BTreeMap", "HashSet", "BTreeSet"):
             from ..symeval import _type_alias
             al_ = _type_alias(segs[-2])         # `type IdMap<L> = HashMap<..>;`
